@@ -85,9 +85,11 @@ def gen_population(rng, meta: Meta, nreg, dangling=False):
     for s in ([1, 2] if rng.random() < 0.5 else [1]):
         P["skymap"].append(({"skymap": s}, None, None))
         for t in rng.sample([1, 2, 3], rng.randint(1, 2)):
-            P["tract"].append(({"skymap": s, "tract": t}, rid(), None))
+            trid = rid()
+            P["tract"].append(({"skymap": s, "tract": t}, trid, None))
             for p in rng.sample([0, 1, 2], rng.randint(0 if P["patch"] else 1, 2)):
-                P["patch"].append(({"skymap": s, "tract": t, "patch": p}, rid(), None))
+                # a patch often shares its tract's region (fine-grained joins below a coarse one then return rows)
+                P["patch"].append(({"skymap": s, "tract": t, "patch": p}, trid if rng.random() < 0.4 else rid(), None))
     used_bands = set()
     for i in insts:
         for d in rng.sample([1, 2, 3], rng.randint(1, 2)):
@@ -131,7 +133,9 @@ def gen_population(rng, meta: Meta, nreg, dangling=False):
         for v in vis:
             for d in dets:
                 if rng.random() < 0.6:
-                    P["visit_detector_region"].append(({"instrument": i, "detector": d, "visit": v}, rid(0.85), None))
+                    vrid = next(r[1] for r in P["visit"] if r[0]["instrument"] == i and r[0]["visit"] == v)
+                    P["visit_detector_region"].append(({"instrument": i, "detector": d, "visit": v},
+                                                       vrid if rng.random() < 0.4 else rid(0.85), None))
             for s in vss:
                 if rng.random() < 0.6:
                     P["visit_system_membership"].append(({"instrument": i, "visit_system": s, "visit": v}, None, None))
@@ -355,6 +359,63 @@ def sub_sample(rng, gs, n_two, n_rest):
     return rng.sample(two, min(n_two, len(two))) + rng.sample(rest, min(n_rest, len(rest)))
 
 
+def closure_group(gby_sets, names):
+    """the dependency closure of a set of dimension names = the smallest closed group containing them"""
+    want = set(names)
+    best = None
+    for key, g in gby_sets:
+        if want <= key and (best is None or len(key) < len(best["names"])):
+            best = g
+    return best
+
+
+def finest(meta, g, fam):
+    return next((m for m in meta.fams[fam] if m in g["elements"]), None)
+
+
+def op_embedded(meta, D, ons):
+    """both most fine-grained spatial members of the query's dimensions are elements of the operand's group"""
+    if len(D["spatial"]) != 2:
+        return False
+    return all(finest(meta, D, f) in ons["elements"] for f in D["spatial"])
+
+
+def gen_opqueries(rng, meta, groups, P, ov_unknown, n):
+    """(G, operand group, kind) triples: operands coarser than / equal to / finer than the query, with one or two spatial
+    families, joined as a materialization, an upload of data IDs, or a dataset search; at least a third of them are
+    two-family queries whose operand does NOT carry the fine-grained join"""
+    gby_sets = [(set(g["names"]), g) for g in groups]
+    two = [g for g in groups if len(g["spatial"]) == 2]
+    nonempty = [g for g in groups if g["names"]]
+    buckets = {"noembed": [], "embed": [], "other": []}
+    tries = 0
+    while tries < 400 and (len(buckets["noembed"]) < n or len(buckets["embed"]) < n or len(buckets["other"]) < n):
+        tries += 1
+        G = rng.choice(two) if rng.random() < 0.7 else rng.choice(nonempty)
+        ons = rng.choice(two) if rng.random() < 0.7 else rng.choice([g for g in nonempty if len(g["names"]) <= 8])
+        D = closure_group(gby_sets, set(G["names"]) | set(ons["names"]))
+        if D is None or len(D["names"]) > 11:
+            continue
+        if len(D["spatial"]) == 2 and len(ons["spatial"]) == 2:
+            b = "embed" if op_embedded(meta, D, ons) else "noembed"
+        else:
+            b = "other"
+        if len(buckets[b]) < n:
+            buckets[b].append((G, ons, D))
+    k = max(1, n // 3)
+    picked = buckets["noembed"][:n - 2 * k] + buckets["embed"][:k] + buckets["other"][:k]
+    out = []
+    for i, (G, ons, D) in enumerate(picked):
+        kind = ("mat", "upload", "dataset")[(i + rng.randrange(3)) % 3]
+        if kind == "dataset" and "subfilter" in ons["names"] and "physical_filter" in ons["names"]:
+            # registerDatasetType raises ConstraintColumnNotFoundError for such a group (band is required by subfilter and
+            # implied by physical_filter: the tags table has no band column to index) -- outside C06, see design.d
+            kind = "upload"
+        out.append({"G": G, "ons": ons, "D": D, "kind": kind,
+                    "frac": rng.choice([0.5, 0.8, 1.0]), "skip": rng.randrange(5)})
+    return out
+
+
 def build_payloads(ctx, meta, groups, npop, k_groups, quick):
     payloads, descr = [], []
     for pi in range(npop):
@@ -373,13 +434,66 @@ def build_payloads(ctx, meta, groups, npop, k_groups, quick):
             hg = gs if k == 0 else sub_sample(rng, gs, 12 if quick else 48, 10 if quick else 60)
             h["groups"] = [g["names"] for g in hg]
             h["_groups"] = hg
-        payloads.append({"regions": regions, "histories": [{k: v for k, v in h.items() if k != "_groups"} for h in hs],
+            h["_opq"] = gen_opqueries(rng, meta, groups, P, None, 9 if quick else 24) if h["name"] in ("plain", "mixed") else []
+            h["opqueries"] = [{"G": q["G"]["names"], "ons": q["ons"]["names"], "kind": q["kind"], "frac": q["frac"], "skip": q["skip"]}
+                              for q in h["_opq"]]
+        payloads.append({"regions": regions, "histories": [{k: v for k, v in h.items() if not k.startswith("_")} for h in hs],
                          "groups": [g["names"] for g in gs], "records_query": True})
-        descr.append({"P": P, "groups": gs, "hgroups": [h["_groups"] for h in hs], "dangling": dangling, "regions": regions})
+        descr.append({"P": P, "groups": gs, "hgroups": [h["_groups"] for h in hs], "dangling": dangling, "regions": regions,
+                      "opq": [h["_opq"] for h in hs]})
     return payloads, descr
 
 
-def check_population(ctx: Ctx, meta: Meta, pi, payload, d, res, hcases, qcases, defs, model=True, rcases=None, tcases=None):
+def check_opqueries(ctx, meta, pi, tag, hname, h, ho, d, P, ovx, exp_cache, ocases):
+    """queries with a join operand: oracle (brute-force join over the closure of the requested and the operand's dimensions,
+    restricted to the rows whose projection lies in the operand, projected on the requested dimensions) + model cases"""
+    for oq, obs in zip(d["opq"], ho.get("opqueries", [])):
+        G, ons, D, kind = oq["G"], oq["ons"], oq["D"], oq["kind"]
+        ctx.count()
+        case = {"population": pi, "history": hname, "dimensions": G["names"], "operand_dimensions": ons["names"], "operand_kind": kind,
+                "frac": oq.get("frac", 1.0), "skip": oq.get("skip", 0), "ops": h["ops"], "regions": d["regions"]}
+        if obs.get("ds") != D["names"]:
+            ctx.tie_broken("harness", "operand closure", f"{G['names']} + {ons['names']}: {obs.get('ds')} vs {D['names']}")
+            continue
+        if "skipped" in obs:
+            ctx.hist("operand_query", f"{kind}:skipped-empty")
+            continue
+        two = len(D["spatial"]) == 2
+        shape = ("embedded" if op_embedded(meta, D, ons) else "not-embedded") if two and len(ons["spatial"]) == 2 else "plain"
+        if "err" in obs:
+            ctx.hist("operand_query", f"{kind}:{shape}:{obs['err'].split(':')[0]}")
+            ctx.oracle_fail(f"operand-query-raises:{kind}:{shape}", dict(case, error=obs["err"]), "a data-ID query with a join operand raised")
+            continue
+        for g in (D, ons):
+            key = tuple(g["names"])
+            if key not in exp_cache:
+                exp_cache[key] = norm(expected_rows(meta, g, P, ovx))
+        R = {tuple(r) for r in (exp_cache[tuple(ons["names"])] if kind == "mat" else obs.get("given", []))}
+        io = [D["names"].index(n) for n in ons["names"]]
+        ig = [D["names"].index(n) for n in G["names"]]
+        want = norm([[a[i] for i in ig] for a in exp_cache[tuple(D["names"])] if tuple(a[i] for i in io) in R])
+        got = norm(obs["rows"])
+        ctx.hist("operand_query", f"{kind}:{shape}:{'rows' if want else 'empty'}")
+        if len(obs["rows"]) != len(got):
+            ctx.oracle_fail(f"operand-duplicate-rows:{kind}", dict(case, n=len(obs["rows"]), distinct=len(got)), "duplicate data IDs returned")
+        if got != want:
+            extra = [x for x in got if x not in want][:4]
+            missing = [x for x in want if x not in got][:4]
+            ctx.oracle_fail(f"operand-rows-differ:{kind}:{shape}:{'extra' if extra else ''}{'missing' if missing else ''}",
+                            dict(case, unexpected_rows=extra, missing_rows=missing, expected_n=len(want), got_n=len(got),
+                                 operand_rows=sorted(R)[:40]),
+                            "a query joined to a materialization / uploaded data IDs / a dataset search does not return exactly the "
+                            "combinations consistent with the stored records that lie in the operand")
+        if want and shape == "not-embedded":
+            ctx.nontrivial({"p": pi, "h": hname, "g": G["names"], "o": ons["names"], "k": kind, "n": len(want)})
+        if ocases is not None:
+            given = clist(clist(f"({cstr(n)}, {cz(v)})" for n, v in zip(ons["names"], r)) for r in obs.get("given", [])) if kind != "mat" else "[]"
+            ocases.append((f"(ov_{pi}, (s_{tag}, {clist(cstr(n) for n in G['names'])}, {clist(cstr(n) for n in D['names'])}, "
+                           f"{clist(cstr(n) for n in ons['names'])}, {cn(0 if kind == 'mat' else 1)}, {given}, "
+                           f"(0%N, {clist(c_zl(r) for r in got)})))", dict(case, observed=got[:30], closure=D["names"])))
+
+
+def check_population(ctx: Ctx, meta: Meta, pi, payload, d, res, hcases, qcases, defs, model=True, rcases=None, tcases=None, ocases=None):
     """oracle on one population's observations + emission of the model cases"""
     P = d["P"]
     # region ids with the same box are one region as far as the stored bytes go: use the smallest id everywhere
@@ -531,6 +645,8 @@ def check_population(ctx: Ctx, meta: Meta, pi, payload, d, res, hcases, qcases, 
                 code = {"crash": 1, "invalid": 2}.get(q.get("new_err"), 9)
                 obs = f"({cn(code)}, [])"
             qcases.append((f"(ov_{pi}, (s_{tag}, {clist(cstr(n) for n in names)}, {obs}))", dict(case, observed=q.get("new", q.get("new_err")))))
+        if d.get("opq") and hi < len(d["opq"]) and d["opq"][hi]:
+            check_opqueries(ctx, meta, pi, tag, hname, h, ho, dict(d, opq=d["opq"][hi]), P, ovx, exp_cache, ocases)
         if hi == 0:
             ctx.sample({"population": {e: [[list(r.values()), rid, ts] for r, rid, ts in P[e]] for e in ORDER if P[e]},
                         "regions": d["regions"], "history_lengths": [len(x["ops"]) for x in payload["histories"]],
@@ -547,7 +663,7 @@ def config_cases(meta: Meta):
     return cases
 
 
-def run_model(ctx, defs, hcases, qcases, ecases, rcases=(), tcases=(), telems=()):
+def run_model(ctx, defs, hcases, qcases, ecases, rcases=(), tcases=(), telems=(), ocases=()):
     header = HEADER + "\n".join(defs) + "\n"
     ctx.log(f"model: {len(hcases)} histories, {len(qcases)} queries, {len(rcases)} record queries")
     bad = ctx.coq_cases("config", HEADER, ecases, "chk_elem jc_current", shard=400)
@@ -583,6 +699,19 @@ def run_model(ctx, defs, hcases, qcases, ecases, rcases=(), tcases=(), telems=()
             ctx.disagreement("fast-evaluator-records", rsmall[i][1], "JoinCheck.fqrecords differs from Join.qrecords (checker machinery)")
         ctx.hist("model", "record queries evaluated in the model", len(rcases))
         ctx.log("model: record queries evaluated")
+    if ocases:
+        bad = ctx.coq_cases("opquery", header, [c for c, _ in ocases], "fun c => chk_opquery jc_current (fst c) (snd c)",
+                            shard=max(20, (len(ocases) + 3) // 4), timeout=900)
+        for i in bad or []:
+            ctx.disagreement("operand-query", ocases[i][1], "model (query_op) and implementation (query joined to a materialization / upload / "
+                             "dataset search) return different rows")
+        osmall = [oc for oc in ocases if len(oc[1]["closure"]) <= 7]
+        bad = ctx.coq_cases("opfast", header, [c for c, _ in osmall], "fun c => chk_opfast jc_current (fst c) (snd c)",
+                            shard=max(20, (len(osmall) + 2) // 3), timeout=900)
+        for i in bad or []:
+            ctx.disagreement("fast-evaluator-operand", osmall[i][1], "JoinCheck.fquery_op differs from Join.query_op (checker machinery)")
+        ctx.hist("model", "operand queries evaluated in the model", len(ocases))
+        ctx.log("model: operand queries evaluated")
     if telems:
         bad = ctx.coq_cases("tconfig", HEADER, list(telems), "chk_telem jc_current", shard=400)
         for i in bad or []:
@@ -601,7 +730,7 @@ def corpus_payloads():
     return out
 
 
-def run_corpus(ctx, meta, groups, defs, hcases, qcases, rcases=None):
+def run_corpus(ctx, meta, groups, defs, hcases, qcases, rcases=None, ocases=None):
     gby = {tuple(g["names"]): g for g in groups}
     items = corpus_payloads()
     if not items:
@@ -611,14 +740,17 @@ def run_corpus(ctx, meta, groups, defs, hcases, qcases, rcases=None):
         P = {e: [(r[0], r[1], r[2] if len(r) > 2 else None) for r in c["population"].get(e, [])] for e in ORDER}
         gs = [gby[tuple(n)] for n in c["groups"] if tuple(n) in gby]
         payloads.append({"regions": c["regions"], "histories": c["histories"], "groups": [g["names"] for g in gs], "records_query": True})
-        descr.append({"P": P, "groups": gs, "dangling": c.get("dangling", False), "regions": c["regions"]})
+        gby_sets = [(set(g["names"]), g) for g in groups]
+        opq = [[{"G": gby[tuple(q["G"])], "ons": gby[tuple(q["ons"])], "kind": q["kind"],
+                 "D": closure_group(gby_sets, set(q["G"]) | set(q["ons"]))} for q in h.get("opqueries", [])] for h in c["histories"]]
+        descr.append({"P": P, "groups": gs, "dangling": c.get("dangling", False), "regions": c["regions"], "opq": opq})
     results = parallel_workers("c06_impl", "run_population", payloads, timeout=300)
     for k, ((name, c), pl, d, (stt, res)) in enumerate(zip(items, payloads, descr, results)):
         if stt != "ok":
             ctx.tie_broken("harness", f"corpus {name}", f"{stt}: {str(res)[:300]}")
             continue
         d["egroups"] = element_groups(meta, groups)
-        check_population(ctx, meta, 900 + k, pl, d, res, hcases, qcases, defs, rcases=rcases)
+        check_population(ctx, meta, 900 + k, pl, d, res, hcases, qcases, defs, rcases=rcases, ocases=ocases)
     ctx.hist("corpus", "cases", len(items))
 
 
@@ -653,6 +785,11 @@ def shrink_failures(ctx: Ctx, meta, groups, limit=3):
             job = dict(base, kind="raises", group=gby[tuple(rp["dimensions"])], api=rp.get("api", "new"))
         elif (sig.startswith("rows-differ") or sig.startswith("dangling-band")) and tuple(rp.get("dimensions", ())) in gby:
             job = dict(base, kind="rows", group=gby[tuple(rp["dimensions"])], api=rp.get("api", "new"))
+        elif sig.startswith("operand-") and tuple(rp.get("dimensions", ())) in gby and tuple(rp.get("operand_dimensions", ())) in gby:
+            G, ons = gby[tuple(rp["dimensions"])], gby[tuple(rp["operand_dimensions"])]
+            D = closure_group([(set(g["names"]), g) for g in groups], set(G["names"]) | set(ons["names"]))
+            job = dict(base, kind="oprows", group=G, operand_group=ons, closure_group=D,
+                       opquery={"G": G["names"], "ons": ons["names"], "kind": rp["operand_kind"], "frac": rp.get("frac", 1.0), "skip": rp.get("skip", 0)})
         elif sig.startswith("query_dimension_records:") and egroups.get(rp.get("element")):
             job = dict(base, kind="records", element=rp["element"], group=egroups[rp["element"]])
         else:
@@ -685,8 +822,8 @@ def _main(ctx: Ctx, quick: bool, model: bool = True):
     groups = info["groups"]
     ctx.hist("groups", "closed groups of the non-skypix dimensions", len(groups))
     ctx.hist("groups", "with two spatial families", sum(1 for g in groups if len(g["spatial"]) == 2))
-    defs, hcases, qcases, rcases, tcases = [], [], [], [], []
-    run_corpus(ctx, meta, groups, defs, hcases, qcases, rcases)
+    defs, hcases, qcases, rcases, tcases, ocases = [], [], [], [], [], []
+    run_corpus(ctx, meta, groups, defs, hcases, qcases, rcases, ocases)
     npop = 5 if quick else 8
     payloads, descr = build_payloads(ctx, meta, groups, npop, 16, quick)
     egroups = element_groups(meta, groups)
@@ -701,10 +838,10 @@ def _main(ctx: Ctx, quick: bool, model: bool = True):
         if stt != "ok":
             ctx.tie_broken("harness", "worker", f"population {pi}: {stt}: {str(res)[:400]}")
             continue
-        check_population(ctx, meta, pi, pl, d, res, hcases, qcases, defs, rcases=rcases, tcases=tcases)
+        check_population(ctx, meta, pi, pl, d, res, hcases, qcases, defs, rcases=rcases, tcases=tcases, ocases=ocases)
     if model:
         telems = [f"({cstr(n)}, {cstr(e.get('temporal') or '')})" for n, e in meta.el.items()]
-        run_model(ctx, defs, hcases, qcases, config_cases(meta), rcases, tcases, telems)
+        run_model(ctx, defs, hcases, qcases, config_cases(meta), rcases, tcases, telems, ocases)
     return meta, groups
 
 
